@@ -441,6 +441,13 @@ impl Gen {
                 }
             }
         }
+        if cfg.symlinks && self.r.chance(1, 12) {
+            for e in self.symlink_sibling_scaffold(&m, cfg) {
+                if m.apply(&e) {
+                    out.push(e);
+                }
+            }
+        }
         if cfg.raw_names && self.r.chance(1, 4) {
             let dirs = m.dirs();
             let dir = self.r.pick(&dirs).clone();
@@ -533,6 +540,24 @@ impl Gen {
             out.push(EditOp::Put { path: join_apath(&d, &name), node: self.file_node(cfg, Some((size, cseed, period))) });
         }
         out
+    }
+
+    /// A symlink and, beside it, a populated directory (and a file) whose names merely EXTEND
+    /// the link's name: textual prefixes that are not path prefixes.
+    pub fn symlink_sibling_scaffold(&mut self, model: &TreeModel, cfg: &GenCfg) -> Vec<EditOp> {
+        let dirs = model.dirs();
+        let parent = self.r.pick(&dirs).clone();
+        let base = *self.r.pick(&["a", "é", "dir", "lib.so"]);
+        let ext = *self.r.pick(&["b", "-b", ".d", ".1", " x", "é"]);
+        let link = join_apath(&parent, base);
+        let sib = join_apath(&parent, &format!("{base}{ext}"));
+        let target = *self.r.pick(&["dangling-target", ".", "..", "/nonexistent/absolute/path"]);
+        vec![
+            EditOp::Put { path: link, node: TNode { kind: NodeKind::Symlink { target: target.to_string() }, meta: self.meta(cfg, false) } },
+            EditOp::Put { path: sib.clone(), node: TNode { kind: NodeKind::Dir, meta: self.meta(cfg, true) } },
+            EditOp::Put { path: join_apath(&sib, "in"), node: self.file_node(cfg, None) },
+            EditOp::Put { path: join_apath(&parent, &format!("{base}.txt")), node: self.file_node(cfg, None) },
+        ]
     }
 
     /// A populated directory is replaced by a symlink that resolves to another existing
